@@ -109,7 +109,7 @@ def _axioms():
     g = ax.setdefault("rot.yaw", [])
     g.append(("L-rot.yaw_compose", fa([a, b], MUL(EULER(a, 0, 0), EULER(b, 0, 0)) == EULER(a + b, 0, 0), [MUL(EULER(a, 0, 0), EULER(b, 0, 0))])))
     g.append(("L-rot.yaw_inverse", fa([a], INV(EULER(a, 0, 0)) == EULER(-a, 0, 0), [INV(EULER(a, 0, 0))])))
-    g.append(("L-rot.yaw_periodic", fa([a], z3.And(EULER(a + TAU, 0, 0) == EULER(a, 0, 0), EULER(a - TAU, 0, 0) == EULER(a, 0, 0)), [EULER(a, 0, 0)])))
+    g.append(("L-rot.yaw_periodic", fa([a], z3.And(EULER(a + TAU, 0, 0) == EULER(a, 0, 0), EULER(a - TAU, 0, 0) == EULER(a, 0, 0)))))  # explicit instances only (its own trigger would loop)
     g.append(
         (
             "L-rot.euler_angles_of_yaw",
@@ -165,10 +165,12 @@ def _axioms():
     g.append(("A2.sin_cos_periodic", fa([a, c], z3.Implies(c == z3.ToReal(z3.ToInt(c)), z3.And(SIN(a + TAU * c) == SIN(a), COS(a + TAU * c) == COS(a))))))
     g.append(("A2.angle_sum", fa([a, b], z3.And(SIN(a + b) == SIN(a) * COS(b) + COS(a) * SIN(b), COS(a + b) == COS(a) * COS(b) - SIN(a) * SIN(b)))))
     g = ax.setdefault("atan2.rotate", [])
+    # "equal modulo whole turns" is stated with an integer-valued witness function (ToInt-based statements make LIRA diverge, DESIGN 2.4)
+    W1 = z3.Function("turns.rotated", RS, RS, RS, z3.IntSort())
     g.append(
         (
             "A2.atan2_of_rotated_vector",
-            fa([a, x, y], z3.Implies(z3.Or(x != 0, y != 0), z3.ToReal(z3.ToInt((ATAN2(SIN(a) * x + COS(a) * y, COS(a) * x - SIN(a) * y) - ATAN2(y, x) - a) / TAU)) == (ATAN2(SIN(a) * x + COS(a) * y, COS(a) * x - SIN(a) * y) - ATAN2(y, x) - a) / TAU)),
+            fa([a, x, y], z3.Implies(z3.Or(x != 0, y != 0), ATAN2(SIN(a) * x + COS(a) * y, COS(a) * x - SIN(a) * y) - ATAN2(y, x) - a == TAU * z3.ToReal(W1(a, x, y)))),
         )
     )
     g.append(
@@ -179,10 +181,11 @@ def _axioms():
     )
     g = ax.setdefault("atan2.yaw", [])
     ya, xa = AP[1](EULER(a, 0, 0), x, y, z), AP[0](EULER(a, 0, 0), x, y, z)
+    W2 = z3.Function("turns.yaw_rotated", RS, RS, RS, RS, z3.IntSort())
     g.append(
         (
             "A2.yaw_rotation_adds_to_the_azimuth",
-            fa([a, x, y, z], z3.And(z3.Implies(z3.Or(x != 0, y != 0), z3.ToReal(z3.ToInt((ATAN2(ya, xa) - ATAN2(y, x) - a) / TAU)) == (ATAN2(ya, xa) - ATAN2(y, x) - a) / TAU), z3.Or(xa != 0, ya != 0) == z3.Or(x != 0, y != 0)), [ATAN2(ya, xa)]),
+            fa([a, x, y, z], z3.And(z3.Implies(z3.Or(x != 0, y != 0), ATAN2(ya, xa) - ATAN2(y, x) - a == TAU * z3.ToReal(W2(a, x, y, z))), z3.Or(xa != 0, ya != 0) == z3.Or(x != 0, y != 0)), [ATAN2(ya, xa)]),
         )
     )
     g = ax.setdefault("rot.euler_action", [])
@@ -194,7 +197,7 @@ def _axioms():
         )
     )
     g = ax.setdefault("hypot", [])
-    g.append(("A1.hypot_is_the_nonnegative_root_of_the_sum_of_squares", fa([x, y, z], z3.And(HYP(x, y, z) >= 0, HYP(x, y, z) * HYP(x, y, z) == x * x + y * y + z * z))))
+    g.append(("A1.hypot_is_the_nonnegative_root_of_the_sum_of_squares", fa([x, y, z], z3.And(HYP(x, y, z) >= 0, HYP(x, y, z) * HYP(x, y, z) == x * x + y * y + z * z), [HYP(x, y, z)])))
     g = ax.setdefault("asin", [])
     g.append(("A2.asin_of_unit_vector_height", fa([z, h], z3.Implies(z3.And(h >= 0, h * h + z * z == 1), ASIN(z) == ATAN2(z, h)))))
     g.append(("A2.asin_range", fa([z], z3.And(-HALF_PI <= ASIN(z), ASIN(z) <= HALF_PI), [ASIN(z)])))
@@ -303,7 +306,7 @@ def _elementwise(I, sym, a, b):
 def hyp_term(eng, comps):
     """hypot as a FUNCTION of its arguments (equal arguments give the same term), with its defining instance assumed"""
     c = [z3.simplify(rz(x)) for x in comps] + [z3.RealVal(0)] * (3 - len(comps))
-    instance(eng, "A1.hypot_is_the_nonnegative_root_of_the_sum_of_squares", *c)
+    use(eng, "hypot")  # instantiated by E-matching only in queries that mention the term (keeps unrelated queries linear)
     return HYP(*c)
 
 
